@@ -27,14 +27,14 @@ func init() {
 		ID:   "C20",
 		Race: true,
 		Rule: "Twin runs: the same layer history (initial value + 1-10 updates, blocking and non-blocking) is played (i) through sourcewrap.NewTransformingSource(fake inner source, manglers...) where the fake produces values OF THE TRANSLATED TYPE IT WAS ASKED FOR (filled by name with forward-converted typed values), and (ii) into a reference Dials whose fake source produces the pointerified original type directly; the two views must be equal after the initial stack and after every update. " +
-			"Mangler lists: none, set-slice, duration substitution, tag reformat, the ez file chain, the flag chain (flatten), the env chain (flatten + string cast) and three anonymous-flatten chains (alone, the YAML decoder's, ez+YAML) over a config type with an embedded struct that has nested structs (by pointer and by value; values leave them set and entirely unset). Inner sources: static, watching, failing at Value (Config must fail with an error wrapping it), failing at Watch, reporting errors (must reach OnWatchedError), and updates whose reverse translation fails (alias and primary both set: the error must come back from the inner source's report call and the view must stay). Transforming decoders go through the same twin comparison on JSON documents. " +
+			"Mangler lists: none, set-slice, duration substitution, tag reformat, the ez file chain, the flag chain (flatten), the env chain (flatten + string cast) and three anonymous-flatten chains (alone, the YAML decoder's, ez+YAML) over a config type with an embedded struct that has nested structs (by pointer and by value; values leave them set and entirely unset). Inner sources: static, watching, failing at Value (Config must fail with an error wrapping it), failing at Watch, reporting errors (must reach OnWatchedError), and updates whose reverse translation fails (alias and primary both set: the error must come back from the inner source's report call and the view must stay). A third of the watching twin runs end with a burst of three goroutines handing four prebuilt values each to the wrapper's WatchArgs at once: every config announced during the burst, and the final view, must be the view of one of those values. Transforming decoders go through the same twin comparison on JSON documents. " +
 			"Blank: every SetSource/Done sequence up to length 4 over {static inner, watching inner, inner failing at Value, Done} plus seeded longer ones, against a 15-line model (delegate to the latest non-watching inner; refuse to replace a watching one; a failing SetSource keeps the previous inner; Done reaches Dials iff no watching inner is installed - observed through monitor exit; an installed watching inner's later updates are applied for as long as the Config context lives, whatever context SetSource was called with). The sequences up to length 3 are run once more with every inner source behind NewTransformingSource(random mangler list), and the seeded longer ones wrap each inner source with probability 1/2: the model is unchanged (a wrapped static source is static, a wrapped watcher a watcher, a wrapped failure a failure). A Watcher whose first value Verify refuses makes SetSource fail and is never watched: the next SetSource (static or watching) must be accepted and shown by the view. " +
 			"distinct_nontrivial = distinct (mangler list, inner kind, update pattern) and (Blank sequence) signatures.",
 		Assumptions: []string{"a Blank placed inside a transforming source is not generated (Blank's initial zero value is a pointer, which the transforming source does not accept: outside the statement)"},
 		MinDistinct: map[string]int{"quick": 800, "thorough": 40000},
 		MinCounters: map[string]map[string]int64{
 			"quick":    {"twin_views_compared": 3000, "wrapped_updates_applied": 1500, "blank_sequences_run": 340, "inner_errors_propagated": 150, "reverse_failures_returned_to_inner": 60,
-				"anon_flatten_values_with_hoisted_struct_unset": 200, "anon_flatten_values_with_hoisted_struct_set": 800, "blank_sequences_with_wrapped_inner_run": 200, "blank_setsource_after_a_refused_watcher": 60},
+				"anon_flatten_values_with_hoisted_struct_unset": 200, "anon_flatten_values_with_hoisted_struct_set": 800, "blank_sequences_with_wrapped_inner_run": 200, "blank_setsource_after_a_refused_watcher": 60, "concurrent_reporter_bursts_through_a_wrapper": 100},
 			"thorough": {"twin_views_compared": 600000},
 		},
 		Plan: func(tier string) fw.Plan {
@@ -846,6 +846,99 @@ func c20Twin(w *fw.Worker, i int, r *fw.Rand) {
 				return
 			}
 		}
+	}
+	if kind == "watching" && r.Chance(35) {
+		// A watcher with several reporting goroutines (one per watched path, say): every value must arrive reverse-
+		// translated as itself. The values are built beforehand; the goroutines only hand them over. Every config the
+		// wrapped Dials announces, and its final view, must be the view of ONE of the reported values.
+		const G, K = 3, 4
+		innerW.mu.Lock()
+		wa, wt, wctx := innerW.wa, innerW.typ, innerW.wctx
+		innerW.mu.Unlock()
+		var vals [G][K]reflect.Value
+		// (the announcement of the last install before the burst may still be on its way to the callback goroutine when
+		// the callback below registers: that config is a legitimate first call)
+		cands := []reflect.Value{gen.CloneValue(reflect.ValueOf(*dw.View()))}
+		for g := 0; g < G; g++ {
+			for k := 0; k < K; k++ {
+				l := c20Layer(r, c, &ch, leaves)
+				v, berr := innerW.build(wt.Type(), l, nil)
+				if berr != nil {
+					w.Note("harness build: " + berr.Error())
+					return
+				}
+				vals[g][k] = v
+				if rerr := refW.report(l, true, nil); rerr != nil {
+					w.Note("reference report failed: " + rerr.Error())
+					return
+				}
+				cands = append(cands, gen.CloneValue(reflect.ValueOf(*dr.View())))
+			}
+		}
+		matches := func(v reflect.Value) bool {
+			for _, cd := range cands {
+				if gen.Diff(cd, v) == "" {
+					return true
+				}
+			}
+			return false
+		}
+		var seenMu sync.Mutex
+		var seen []reflect.Value
+		unreg := dw.RegisterCallback(ctx, dials.CfgSerial[c20Cfg]{}, func(_ context.Context, _, nw *c20Cfg) {
+			seenMu.Lock()
+			seen = append(seen, gen.CloneValue(reflect.ValueOf(*nw)))
+			seenMu.Unlock()
+		})
+		var wg sync.WaitGroup
+		errs := make([]error, G)
+		for g := 0; g < G; g++ {
+			wg.Add(1)
+			go func(g int) {
+				defer wg.Done()
+				for k := 0; k < K; k++ {
+					if e := wa.BlockingReportNewValue(wctx, vals[g][k]); e != nil {
+						errs[g] = e
+						return
+					}
+				}
+			}(g)
+		}
+		wg.Wait()
+		if unreg != nil {
+			unreg(ctx) // the callback goroutine has run everything queued before this
+		}
+		for g, e := range errs {
+			if e != nil {
+				w.Violation(i, "update-error-through-wrapper:"+ch.name+":concurrent-reporters", fmt.Sprintf("reporter %d: %v", g, e), desc)
+				return
+			}
+		}
+		w.Count("concurrent_reporter_bursts_through_a_wrapper", 1)
+		seenMu.Lock()
+		all := append(append([]reflect.Value{}, seen...), gen.CloneValue(reflect.ValueOf(*dw.View())))
+		seenMu.Unlock()
+		for n, v := range all {
+			w.Count("configs_checked_against_the_concurrently_reported_values", 1)
+			if !matches(v) {
+				what := "a config announced to a callback"
+				if n == len(all)-1 {
+					what = "the final view"
+				}
+				w.Violation(i, "wrapped-view-is-none-of-the-reported-values:"+ch.name, fmt.Sprintf("%s after %d reporters handed over %d values each through the wrapper equals the view of none of them (closest diff to the last one: %s)", what, G, K, gen.Diff(cands[len(cands)-1], v)), desc)
+				return
+			}
+		}
+		// bring the twins back in step for what follows
+		l := c20Layer(r, c, &ch, leaves)
+		if e1, e2 := innerW.report(l, true, nil), refW.report(l, true, nil); e1 != nil || e2 != nil {
+			w.Note(fmt.Sprintf("resync report failed: %v / %v", e1, e2))
+			return
+		}
+		if !cmp("resync after the concurrent reporters") {
+			return
+		}
+		pat.WriteByte('c')
 	}
 	if kind == "watching" && r.Bool() {
 		// after shutdown a report cannot be delivered: the watcher must be told so (it may retry elsewhere), wrapped or not
